@@ -13,7 +13,7 @@ MSGS = [0, 1, R - 1, R, R + 1, (1 << 256) - 1, 2]
 def worker(sh):
     rng = sh.rng
     sc = wkd.Script(rng)
-    l = [3, 3, 3, 1, 2, 4, 5, 5, 8, 8, 12, 20, 6, 3, 3, 8][sh.index]
+    l = [3, 3, 3, 1, 2, 4, 5, 33, 8, 8, 12, 20, 6, 3, 65, 8][sh.index]
     sc.setup(0, l, True)
     keys = []
     for h in range(sh.pick(4, 24)):
